@@ -59,6 +59,8 @@ def shards(tier, seed):
     m2 = 4 if tier == "quick" else 16
     per = 1500 if tier == "quick" else 12000
     out += [{"kind": "queries", "n": per, "part": k} for k in range(m2)]
+    if tier == "thorough":
+        out.append({"kind": "under_tests"})
     return out
 
 
@@ -115,6 +117,17 @@ def run_shard(spec):
     import liquer.parser as P
     from lqv import qstruct
 
+    if spec.get("kind") == "under_tests":
+        from lqv import undertests
+
+        r = undertests.run("C19", spec["scratch"])
+        if r is None:
+            return {"evaluations": 0, "inconclusive": ["test-suite run with contracts did not finish"]}
+        v = [{"sig": "C19|under the repository's tests|" + x["contract"],
+              "what": "contract refuted while the repository's own tests ran: %r" % (x["witness"],),
+              "witness": {"kind": "segment", "dir": (x["witness"] or {}).get("dir", ""), "path": (x["witness"] or {}).get("path", "a")}} for x in r["records"][:5]]
+        n = sum(r["counts"].values())
+        return {"evaluations": n, "violations": v, "counters": {"contract_evals_under_repo_tests": n}}
     mon = Monitor("raise")
     install_contracts(mon)
     violations = {}
